@@ -1,4 +1,5 @@
 """C15 -- reflections, walls, fixed points (R1, U1). Narrow."""
+from ..rules import dtype_rules as DT
 from ..rules import hyp_rules as H
 from ..rules import cache_rules as CA
 from ..rules import sibling_rules as SI
@@ -19,6 +20,8 @@ def run(ctx):
     ctx.do(SH.rule_ax1, [SH.CORE, H.HYP], scope=ctx.scope(ENTRIES))
     ctx.do(SI.rule_ref1)
     ctx.do(SI.rule_flip1)
+    ctx.do(DT.rule_cx1, [H.HYP])
+    ctx.do(DT.rule_lk1, [H.HYP], scope=ctx.scope(ENTRIES))
     ctx.do(CA.rule_c2, "ProjectiveObject", scope=ctx.scope(ENTRIES))
     ctx.do(SI.rule_mean1, [SI.HYP], scope=ctx.scope(ENTRIES))
     ctx.do(SH.rule_sh5, only={"Subspace._data_with_dual", "Subspace.spacelike_complement", "Subspace.reflection_across", "Isometry.fixed_point_pair", "Isometry.fixed_point", "Isometry.axis", "Hyperplane.from_reflection", "Geodesic.from_reflection"})
